@@ -17,7 +17,7 @@ import sys, json, re
 name, out, crate, dest, conf, checks = sys.argv[1:7]
 props = sys.argv[7:]
 lines = conf.splitlines()
-get = lambda p: next((l for l in lines if l.startswith(p)), "")
+get = lambda p: next((l for l in lines if l.startswith(p + ":") or l.startswith(p + "(")), "")
 res = {}
 for l in checks.splitlines():
     m = re.match(r"\S+ (C\d\d) (caught|MISSED)(.*)", l)
